@@ -26,7 +26,25 @@ CHUNK = 1
 DIRS = [".", "a", "a/b"]
 KINDS = ["ignore", "cfg", "toml"]
 PATS = ["y.sql", "*.sql", "b/", "b/y.sql", "/x.sql", "**/y.sql", "a/b/"]
-FILES = ["f.sql", "g.txt", "a/x.sql", "a/b/y.sql"]
+# 'ab' is a sibling of 'a' whose NAME starts with 'a' (string-prefix vs path-component comparisons)
+FILES = ["f.sql", "g.txt", "a/x.sql", "a/b/y.sql", "ab/z.sql", "ab/y.sql"]
+
+
+class OrderedOs:
+    """os stand-in for the discovery module: os.walk with a controlled listing order. Directory listing
+    order is environment nondeterminism (it depends on the filesystem); both orders are explored."""
+
+    def __init__(self, reverse):
+        self._rev = reverse
+
+    def walk(self, top, topdown=True, **kw):
+        for d, subdirs, files in os.walk(top, topdown=topdown, **kw):
+            subdirs.sort(reverse=self._rev)
+            files.sort(reverse=self._rev)
+            yield d, subdirs, files
+
+    def __getattr__(self, name):
+        return getattr(os, name)
 
 
 def cases(tier):
@@ -43,6 +61,7 @@ def cases(tier):
 
 def build(case_dir, carriers):
     os.makedirs(os.path.join(case_dir, "a", "b"))
+    os.makedirs(os.path.join(case_dir, "ab"))
     for p in FILES:
         with open(os.path.join(case_dir, p), "w") as f:
             f.write("select 1\n")
@@ -128,13 +147,18 @@ def run_case(case):
                 for honour in (True, False):
                     results = {}
                     want = model(cd, cwd, rel, carriers, exts, honour)
-                    for sp in sps:
+                    for sp, rev in [(s_, r_) for s_ in sps for r_ in (False, True)]:
                         res["n"] += 1
+                        from sqlfluff.core.linter import discovery as _disc
+
+                        _disc.os = OrderedOs(rev)
                         try:
                             got = sorted(os.path.relpath(os.path.abspath(p), cd) for p in paths_from_path(sp, working_path=cwd, target_file_exts=exts, ignore_files=honour))
                         except Exception as e:
                             got = "EXC " + type(e).__name__
-                        results[sp] = got
+                        finally:
+                            _disc.os = os
+                        results[(sp, rev)] = got
                         if got != want:
                             kind = "absolute" if os.path.isabs(sp) else ("dotdot" if sp.startswith("..") else "relative")
                             over = isinstance(got, list) and len(got) > len(want)
@@ -151,7 +175,7 @@ def run_case(case):
                             {
                                 "clause": "spelling_dependent",
                                 "features": {"cwd": case["cwd"], "target": tname},
-                                "detail": {"carriers": carriers, "results": {(k if not os.path.isabs(k) else "<abs>"): v for k, v in results.items()}},
+                                "detail": {"carriers": carriers, "results": {((k[0] if not os.path.isabs(k[0]) else "<abs>") + (" [listing reversed]" if k[1] else "")): v for k, v in results.items()}},
                             }
                         )
                     if honour and len(want) < len(model(cd, cwd, rel, carriers, exts, False)):
